@@ -270,6 +270,7 @@ func CapacityOracle(props ...string) clustermc.Oracle {
 			}
 		}
 		boundOnce := map[string]int{}
+		touched := map[string]bool{} // devices this cycle's binds were attached to
 		for _, d := range t.Res.Decisions {
 			if d.Kind != "bind" {
 				continue
@@ -314,6 +315,9 @@ func CapacityOracle(props ...string) clustermc.Oracle {
 				}
 			}
 			u.add(p, d.GPUGroups, mem[d.Node], "(bind)")
+			for _, g := range d.GPUGroups {
+				touched[g] = true
+			}
 		}
 		for pod, n := range boundOnce {
 			if n > 1 {
@@ -359,8 +363,8 @@ func CapacityOracle(props ...string) clustermc.Oracle {
 					Message: fmt.Sprintf("node %s GPUs: whole=%d + shared devices=%d > %d; members=%v groups=%v", n.Name, u.wholeGPU, nGroups, gpus, u.members, u.groupMembers)})
 			}
 			for g, demand := range u.groups {
-				if math.IsNaN(demand) {
-					continue
+				if math.IsNaN(demand) || !touched[g] {
+					continue // only devices the scheduler added to in this cycle are its decision
 				}
 				if demand > devCap(mem[n.Name])*(1+1e-9) {
 					out = append(out, engine.Violation{Property: "C02", Key: "C02/device-oversubscribed",
